@@ -82,6 +82,24 @@ Assert1Len(p, xs, j) ==
     ELSE j - 1
 
 (* --------------------------------------------------------------------- *)
+(* stable sort by key (python sorted(): equal keys keep their arrival order, also
+   with reverse=True) *)
+RECURSIVE InsertSorted(_, _, _, _)
+InsertSorted(sorted, x, kf, rev) ==
+    \* insert x after every element that is not strictly "after" it
+    IF sorted = <<>> THEN <<x>>
+    ELSE LET h == Head(sorted)
+             kh == V(Apply(kf, h))
+             kx == V(Apply(kf, x))
+             xBeforeH == IF rev THEN kx > kh ELSE kx < kh
+         IN IF xBeforeH THEN <<x>> \o sorted
+            ELSE <<h>> \o InsertSorted(Tail(sorted), x, kf, rev)
+
+RECURSIVE StableSort(_, _, _)
+StableSort(xs, kf, rev) ==
+    IF xs = <<>> THEN <<>>
+    ELSE InsertSorted(StableSort(SubSeq(xs, 1, Len(xs) - 1), kf, rev), xs[Len(xs)], kf, rev)
+
 R(op, xs) ==
     LET n == Len(xs) IN
     CASE op.op = "map"       -> MapSeq(op.f, xs)
@@ -107,7 +125,7 @@ R(op, xs) ==
                                      IN [j \in 1..n |-> IntV(RunMax(ks, j))]
       [] op.op = "first"     -> Take(xs, 1)
       [] op.op = "take"      -> Take(xs, op.n)
-      [] op.op \in {"last", "to_list", "to_array", "pad_end"} ->
+      [] op.op \in {"last", "to_list", "to_array", "pad_end", "sort"} ->
              IF op.op = "pad_end" THEN xs ELSE <<>>
       [] op.op = "distinct"  -> LET ks == KeysOf(op.f, xs) IN
              SelectSeq([j \in 1..n |-> <<j, xs[j]>>],
@@ -143,6 +161,7 @@ F(op, xs) ==
                                ELSE <<IntV(RunMax([j \in 1..n |-> V(Apply(op.f, xs[j]))], n))>>
       [] op.op = "last"     -> IF n = 0 THEN <<>> ELSE <<xs[n]>>
       [] op.op \in {"to_list", "to_array"} -> <<LstV(xs)>>
+      [] op.op = "sort"     -> StableSort(xs, op.f, op.reverse)
       [] op.op = "pad_end"  -> IF n = 0 THEN <<>>
                                ELSE Rep(IF IsNone(op.v) THEN xs[n] ELSE op.v, op.n)
       [] op.op = "batch"    -> IF n % op.n = 0 THEN <<>>
